@@ -194,7 +194,9 @@ def prelude(weight_none=4):
     """An earlier connection in the same process (see build.prelude): mostly none."""
     from .build import PRELUDE_KINDS
     spec = st.fixed_dictionaries({"kind": st.sampled_from(PRELUDE_KINDS), "same": st.booleans(),
-                                  "end": st.sampled_from(["eof", "eof", "reset"])})
+                                  "end": st.sampled_from(["eof", "eof", "reset"]),
+                                  # ... inside a "with ws:" block
+                                  "with": st.sampled_from([False, False, True])})
     return weighted([(weight_none, st.none()), (1, spec)])
 
 
